@@ -22,8 +22,9 @@ Matches == /\ Ev.rn = ret'.n /\ Ev.err = ret'.err
            /\ (Ev.cur >= 0 => Ev.cur = cur')          \* the cursor itself, through the verif hook
            /\ Confined' /\ CursorNotBeforeBase'
 
-TraceNew     == IsEvent("New")     /\ Ev.base >= 0 /\ Ev.n >= 0 /\ New(Ev.base, Ev.n) /\ Ev.under = <<>>
-TraceNewAt   == IsEvent("NewAt")   /\ Ev.base >= 0 /\ NewAt(Ev.base) /\ Ev.under = <<>>
+\* offsets are logged relative to the section start (the machine is translation invariant): base = 0
+TraceNew     == IsEvent("New")     /\ Ev.n >= 0 /\ New(0, Ev.n) /\ Ev.under = <<>>
+TraceNewAt   == IsEvent("NewAt")   /\ Ev.room >= 0 /\ NewAtRoom(Ev.room) /\ Ev.under = <<>>
 TraceWrite   == IsEvent("Write")   /\ Len(Ev.under) <= 1 /\ Write(Ev.p, EnvK, EnvE) /\ Matches
 TraceWriteAt == IsEvent("WriteAt") /\ Len(Ev.under) <= 1 /\ WriteAt(Ev.p, Ev.off, EnvK, EnvE) /\ Matches
 TraceSeek    == IsEvent("Seek")    /\ Seek(Ev.off, Ev.w) /\ Matches
